@@ -106,3 +106,9 @@ claim('C16',
       'in both representations, mutual coverage of JSON kinds, no untriaged panic site in any codec body, and sign-before-split, checked '
       'exponent arithmetic and no leading-digit dropping in the exact decimal parser.',
       'paired decision tables from HIR patterns/MIR constants + census + callee discipline')
+claim('C13',
+      'The equations f(xs) == reference(xs) are NOT decided (runtime values). Decided are only the clauses of the statement that are '
+      'finite tables or shapes: the exhaustive kind-preservation table of the filter/sort/unique/reverse/take/drop/uncons/unsnoc helpers '
+      '(input kind -> constructed kind), stable sorting and first-occurrence uniqueness, the initial element of the combinatorial streams, '
+      'and progress of the predicate loops over streams.',
+      'finite kind tables from HIR match arms + guard-polarity query')
